@@ -626,3 +626,60 @@ func restoreCaseOrder(key string, c *ast.FuncDecl) {
 		return true
 	})
 }
+
+// expandSlicesCompare: `if c := slices.Compare(X, Y); c > 0 { return G } else if c < 0 { return L }` is presented as the
+// element-wise loop and the two length tests it replaces (slices.Compare: first differing element decides, else the shorter is less)
+func expandSlicesCompare(c *ast.FuncDecl) {
+	oneReturn := func(b *ast.BlockStmt) string {
+		if b == nil || len(b.List) != 1 {
+			return ""
+		}
+		if r, ok := b.List[0].(*ast.ReturnStmt); ok {
+			return printNode(r)
+		}
+		return ""
+	}
+	var visit func(list []ast.Stmt) []ast.Stmt
+	visit = func(list []ast.Stmt) []ast.Stmt {
+		var out []ast.Stmt
+		for _, st := range list {
+			done := false
+			if is, ok := st.(*ast.IfStmt); ok && is.Init != nil {
+				if def, ok := is.Init.(*ast.AssignStmt); ok && def.Tok == token.DEFINE && len(def.Lhs) == 1 && len(def.Rhs) == 1 {
+					if call, ok := def.Rhs[0].(*ast.CallExpr); ok && printNode(call.Fun) == "slices.Compare" && len(call.Args) == 2 && pureExpr(call.Args[0]) && pureExpr(call.Args[1]) {
+						v := printNode(def.Lhs[0])
+						els, _ := is.Else.(*ast.IfStmt)
+						g := oneReturn(is.Body)
+						if els != nil && els.Init == nil && els.Else == nil && printNode(is.Cond) == v+" > 0" && printNode(els.Cond) == v+" < 0" && g != "" {
+							if l := oneReturn(els.Body); l != "" {
+								x, y := printNode(call.Args[0]), printNode(call.Args[1])
+								text := "package p\nfunc _() {\nfor i := 0; i < len(" + x + ") && i < len(" + y + "); i++ {\nif " + x + "[i] > " + y + "[i] {\n" + g + "\n}\nif " + x + "[i] < " + y + "[i] {\n" + l + "\n}\n}\n" +
+									"if len(" + x + ") > len(" + y + ") {\n" + g + "\n}\nif len(" + x + ") < len(" + y + ") {\n" + l + "\n}\n}\n"
+								if f, err := parser.ParseFile(token.NewFileSet(), "", text, 0); err == nil && len(f.Decls) == 1 {
+									out = append(out, f.Decls[0].(*ast.FuncDecl).Body.List...)
+									done = true
+								}
+							}
+						}
+					}
+				}
+			}
+			if !done {
+				ast.Inspect(st, func(n ast.Node) bool {
+					switch x := n.(type) {
+					case *ast.BlockStmt:
+						x.List = visit(x.List)
+						return false
+					case *ast.CaseClause:
+						x.Body = visit(x.Body)
+						return false
+					}
+					return true
+				})
+				out = append(out, st)
+			}
+		}
+		return out
+	}
+	c.Body.List = visit(c.Body.List)
+}
